@@ -419,6 +419,47 @@ fn self_referential_condy(indirect: bool, via_indy: bool) -> Vec<u8> {
 	a.finish(this, sup, &[0, 0], &m, &[&[0u8, 1][..], &attr(bsm_name, &bsm_body)].concat())
 }
 
+/// an acyclic chain of `n` distinct dynamic constants: constant k is the only argument of the bootstrap method of
+/// constant k-1; the head is loaded by `ldc_w` (or called through `invokedynamic`).  Nothing refers to itself, so only a
+/// depth limit (not a cycle check) keeps the resolution from recursing n levels deep.
+fn condy_chain(n: usize, via_indy: bool) -> Vec<u8> {
+	let mut a = Asm::new();
+	let this = a.class("A");
+	let sup = a.class("java/lang/Object");
+	let bsm_name = a.utf8("BootstrapMethods");
+	let code_name = a.utf8("Code");
+	let x = a.utf8("x");
+	let di = a.utf8("I");
+	let condy_nat = a.ref2(12, x, di);
+	let dv = a.utf8("()I");
+	let indy_nat = a.ref2(12, x, dv);
+	let mn = a.utf8("bsm");
+	let md = a.utf8("()V");
+	let mnat = a.ref2(12, mn, md);
+	let mref = a.ref2(10, this, mnat);
+	let h = a.handle(6, mref);
+	let leaf = a.int(7);
+	// constant k uses bootstrap method k
+	let first = a.slots as u16;
+	for k in 0..n {
+		a.ref2(17, k as u16, condy_nat);
+	}
+	let indy = a.ref2(18, 0, indy_nat);
+	let m_name = a.utf8("m");
+	let m_desc = a.utf8("()V");
+	let mut bsm_body = (n as u16).to_be_bytes().to_vec();
+	for k in 0..n {
+		let arg = if k + 1 < n { first + k as u16 + 1 } else { leaf };
+		bsm_body.extend_from_slice(&h.to_be_bytes());
+		bsm_body.extend_from_slice(&[0, 1]);
+		bsm_body.extend_from_slice(&arg.to_be_bytes());
+	}
+	let code: Vec<u8> = if via_indy { vec![186, (indy >> 8) as u8, indy as u8, 0, 0, 87, 177] } else { vec![19, (first >> 8) as u8, first as u8, 87, 177] };
+	let code_body = [&[0u8, 1, 0, 1][..], &(code.len() as u32).to_be_bytes(), &code, &[0, 0, 0, 0]].concat();
+	let m = [&[0u8, 1][..], &[0, 9], &m_name.to_be_bytes(), &m_desc.to_be_bytes(), &[0, 1], &attr(code_name, &code_body)].concat();
+	a.finish(this, sup, &[0, 0], &m, &[&[0u8, 1][..], &attr(bsm_name, &bsm_body)].concat())
+}
+
 /// a Code attribute with the given raw bytecode and optional extra Code attributes
 fn raw_code_class(code: &[u8], code_attrs: &[(&str, Vec<u8>)], desc: &str) -> Vec<u8> {
 	let mut a = Asm::new();
@@ -457,6 +498,10 @@ fn hostile_class_files(thorough: bool) -> Vec<(&'static str, Vec<u8>)> {
 	v.push(("self_referential_condy", self_referential_condy(true, false)));
 	v.push(("self_referential_condy_via_indy", self_referential_condy(false, true)));
 	v.push(("self_referential_condy_via_indy", self_referential_condy(true, true)));
+	for n in [3usize, 255, 256, 257, 5000, 60000] {
+		v.push(("long_chain_of_dynamic_constants", condy_chain(n, false)));
+		v.push(("long_chain_of_dynamic_constants_via_indy", condy_chain(n, true)));
+	}
 	// truncated last instructions
 	for code in [&[17u8][..], &[17, 0], &[16], &[18], &[19, 0], &[153, 0], &[200, 0, 0], &[196], &[196, 21], &[196, 132, 0, 1], &[197, 0], &[185, 0, 13, 1], &[186, 0], &[170], &[170, 0, 0, 0], &[171, 0, 0, 0, 0, 0, 0, 0]] {
 		v.push(("truncated_last_instruction", raw_code_class(code, &[], "()V")));
@@ -914,7 +959,7 @@ fn one_in_child(path: &std::path::Path) -> Verdict {
 
 pub fn run(ctx: &mut Ctx) {
 	ctx.level = "fault_enumeration";
-	ctx.rule = "deterministic enumeration from VERIF_SEED: for generated valid class files every structural field (encoder field map: counts, lengths, indices, tags, offsets, opcodes) is set to boundary values (0,1,0x7f,0x80,0xff,0x100,0x7fff,0x8000,0xfffe,0xffff, u32 extremes, own value +-1, remaining length +-1), every constant pool reference is redirected over the whole pool incl. 0 / count / count+1, the file is truncated at every field boundary, plus random byte edits; hand-assembled hostile files (element values and annotations nested up to 100000 deep, dynamic constants that are their own bootstrap argument, truncated last instructions, switches over the int range, branch/local-variable/stack-map arithmetic at 65535, invokeinterface with >255 argument slots, 4 GiB attribute_length in a tiny file); valid tiny / tinydiff / enigma / nests text with line, indentation, token and byte mutations (20-digit numbers, NUL, invalid UTF-8, 70 kB tokens, 1 MiB line); hostile and random descriptor strings. Each case runs in a sandboxed child: only a value or a clean Err is allowed; panic (caught, site recorded), death of the child (stack overflow, abort), or one allocation request > 64*len+16MiB are violations; no progress for 60 s is inconclusive. distinct_nontrivial = distinct (input bytes, target, fault kind, field role) behind the header".into();
+	ctx.rule = "deterministic enumeration from VERIF_SEED: for generated valid class files every structural field (encoder field map: counts, lengths, indices, tags, offsets, opcodes) is set to boundary values (0,1,0x7f,0x80,0xff,0x100,0x7fff,0x8000,0xfffe,0xffff, u32 extremes, own value +-1, remaining length +-1), every constant pool reference is redirected over the whole pool incl. 0 / count / count+1, the file is truncated at every field boundary, plus random byte edits; hand-assembled hostile files (element values and annotations nested up to 100000 deep, dynamic constants that are their own bootstrap argument, acyclic chains of up to 60000 distinct dynamic constants, truncated last instructions, switches over the int range, branch/local-variable/stack-map arithmetic at 65535, invokeinterface with >255 argument slots, 4 GiB attribute_length in a tiny file); valid tiny / tinydiff / enigma / nests text with line, indentation, token and byte mutations (20-digit numbers, NUL, invalid UTF-8, 70 kB tokens, 1 MiB line); hostile and random descriptor strings. Each case runs in a sandboxed child: only a value or a clean Err is allowed; panic (caught, site recorded), death of the child (stack overflow, abort), or one allocation request > 64*len+16MiB are violations; no progress for 60 s is inconclusive. distinct_nontrivial = distinct (input bytes, target, fault kind, field role) behind the header".into();
 	ctx.assume("a hang is reported as inconclusive (exit 2), never as a violation");
 	ctx.assume("memory unrelated to the input size = a single allocation request larger than 64 x input length + 16 MiB (pre-sizing by a 16-bit count is bounded and not counted)");
 	let sub = "totality";
